@@ -37,13 +37,34 @@ def check(run, tier):
         "IsPartition(RefPartition), PlanOK(RefPlan), independence of flows from order and mode, AutoSide truth table; "
         "implementation: partition_by_column on every permutation of lists up to 5 triples, random lists up to 30 triples "
         "with heavy ties over rows A..Z and columns 1..99, optimize_partition_by for the four trough/non-trough combinations "
-        "x valid and invalid mode names, judged by Trace_Calls (C18.partition, C18.badmode, C18.auto, C18.modename); "
+        "x valid and invalid mode names, judged by Trace_Calls (C18.partition, C18.badmode, C18.auto, C18.modename); transfers on both devices whose pairs must come grouped by the column of the chosen side (C18.side, C18.mode, Trace_Twin); "
         "distinct = distinct argument tuples; non-trivial = at least two triples"
     )
     q = tier == "quick"
     run.mc("MC_Partition", "MC_Partition" if q else "MC_Partition_thorough", timeout=3000)
     r = rng("C18")
     run_calls(run, cases(tier, r), nontrivial=lambda rec: rec["fn"] == "part" and len(rec["x"]) >= 2)
+    _twin_part(run, tier)
+
+
+def _twin_part(run, tier):
+    """The choice inside transfer(): the emitted pairs are grouped by the column of the chosen side (C18.side)."""
+    from ..common import rng
+    from ..drivers import programs, targeted
+    from ._twin import run_programs
+
+    q = tier == "quick"
+    r = rng("C18-twin")
+    progs = []
+    for dev in ("evo", "fluent"):
+        progs += [p for p in targeted.worklist_programs(dev) if "trough" in p["id"] or "pby" in p["id"] or "partition" in p["id"]]
+        progs += targeted.permutation_programs(dev, 3)
+    for i in range(60 if q else 1500):
+        dev = "evo" if i % 2 == 0 else "fluent"
+        progs.append(programs.worklist_program(r, f"C18/t{i}", dev, r.randint(1, 4), maxunits=30, wlmax=r.choice([3, 5, 30]), comps=False, small=False,
+                                               weights={"transfer": 1, "distribute": 0, "aspirate": 0, "dispense": 0, "add": 0, "remove": 0},
+                                               transfer_kw={"nmax": 8}))
+    run_programs(run, progs)
 
 
 def replay(run, rp):
